@@ -163,3 +163,16 @@ def x_dtype(inst):
         # a one-item instance has no moptipy search space; same dtype rule
         n = int(inst.n_different_items)
         return int_range_to_dtype(-n, n)
+
+
+def scratch_arrays(obj) -> list:
+    """All numpy arrays an object keeps as attributes (except problem data)."""
+    import numpy as np
+    from moptipyapps.binpacking2d.instance import Instance
+    out = []
+    for name in sorted(vars(obj)):
+        v = vars(obj)[name]
+        if isinstance(v, np.ndarray) and not isinstance(v, Instance) \
+                and v.ndim >= 1 and v.size > 0:
+            out.append(v)
+    return out
